@@ -213,6 +213,28 @@ def run_case(case, ctx):
                 gs_flt = np.asarray(cd_c.draw_sample(5, 2.0, random_state=3), float)
                 ctx.check("c11.conditional-fixed", bool(np.array_equal(gs_int, gs_flt)), f"{fam}: conditional draw_sample with a fixed parameter differs between given=2 and given=2.0", got=gs_int, want=gs_flt, **info)
 
+        # 2d. the per-interval fits of a conditional distribution keep the fixed value (every template family, also the
+        # ones defined through a scipy distribution object)
+        if method == "mle" and R.admissible(fam, eff_c) and not (fam == "lnnf" and eff_c["mu_norm"] <= 0) and fam != "vonmises":
+
+            def _lin(x, a=1.0, b=0.0):
+                return a + b * x
+
+            cd_f = ConditionalDistribution(cls(**{f"f_{k}": v for k, v in fixed.items()}), {k: DependenceFunction(_lin) for k in free_names})
+            ivals = []
+            for j in range(4):
+                u = np.random.default_rng(case["sub"] + j).random(120)
+                with np.errstate(all="ignore"):
+                    xi = np.asarray(R.icdf(fam, u, **eff_c), float)
+                ivals.append(xi[np.isfinite(xi)])
+            try:
+                cd_f.fit(ivals, [0.5, 1.5, 2.5, 3.5], [(0, 1), (1, 2), (2, 3), (3, 4)], "mle", None)
+                per = cd_f.parameters_per_interval
+                okpi = len(per) == 4 and all(abs(pi[k] - v) <= 1e-12 * max(1.0, abs(v)) for pi in per for k, v in fixed.items())
+                ctx.check("c11.conditional-fixed", okpi, f"{fam}: a per-interval fit of a conditional distribution changed a fixed parameter", want=fixed, got=[{k: pi[k] for k in fixed} for pi in per], **info)
+            except Exception as e:  # noqa: BLE001
+                ctx.count(f"c11.conditional-interval-fit-raised[{type(e).__name__}]")
+
     # 3. fitting
     data = _data(case, rng)
     start = dict(d.parameters)
